@@ -30,3 +30,9 @@ Fixpoint for_loop {S : Type} (n : nat) (i : Z) (st : S) (body : Z -> S -> outcom
   end.
 Definition for_range {S : Type} (lo hi : Z) (st : S) (body : Z -> S -> outcome S) : outcome S :=
   for_loop (Z.to_nat (hi - lo)) lo st body.
+(* `for x in xs.iter_mut().rev() { body }` : the body runs for i = n-1 down to 0 *)
+Fixpoint for_down {S : Type} (n : nat) (st : S) (body : Z -> S -> outcome S) : outcome S :=
+  match n with
+  | O => Val st
+  | S n' => do st' <- body (Z.of_nat n') st ; for_down n' st' body
+  end.
